@@ -317,7 +317,8 @@ def mk_failure(it, cls, res, schedule, pre=None, main=None):
 def vclass(f):
     """violation class used for grouping, minimisation and known-finding matching"""
     c = f["class"].split(":")[0]
-    return (f["compiler"], f["facility"], c)
+    fac = "public-api-call" if f.get("kind") == "api" else f["facility"]
+    return (f["compiler"], fac, c)
 
 
 # ------------------------------------------------------------------------------- plan generation
@@ -527,9 +528,32 @@ def write_replay(seed, program, schedule, failure, n):
     return path
 
 
+def replay_api(plan, path, quiet):
+    want = plan["violation"]
+    sch = plan["schedule"]
+    seed_ = int(str(sch.get("salt") or "1").split(".")[0])
+    r = api_sweep(seed_, False, only=plan.get("only"), cfg_filter=sch["cfg"]) if plan.get("only") else \
+        api_sweep(seed_, plan.get("thorough", False), cfg_filter=sch["cfg"])
+    if r["infra"]:
+        if not quiet:
+            log("replay: infrastructure problem: " + r["infra"])
+        return 2
+    for f in r["failures"]:
+        if f["class"].split(":")[0] == want["class"].split(":")[0] and f["note"].split(" [")[0] == want["note"].split(" [")[0] and f.get("form") == want.get("form"):
+            if not quiet:
+                log("replay: reproduced %s before main in %s (%s, link %s)" % (f["class"], f["note"], sch["cfg"], f["schedule"]["link"]))
+                log("VIOLATION property=%s replay=%s" % (PROP, path))
+            return 1
+    if not quiet:
+        log("replay: violation not reproduced on the current tree")
+    return 0
+
+
 def replay(path, quiet=False):
     with open(path, encoding="utf-8") as fh:
         plan = json.load(fh)
+    if plan.get("kind") == "api-sweep":
+        return replay_api(plan, path, quiet)
     tc = Toolchain(common.scratch("c19r"))
     r = build_and_run(tc, plan["program"], plan["schedule"])
     if r["infra"]:
@@ -569,6 +593,12 @@ def main(tier, seed, only=None):
     thorough = tier == "thorough"
     log("C19 tier=%s VERIF_SEED=%d catalogue=%s" % (tier, seed, json.dumps(cat.summary())))
     tc = Toolchain(common.scratch("c19"))
+    import threading
+    api_box = {}
+    api_thread = None
+    if os.environ.get("VERIF_C19_API", "1") != "0":
+        api_thread = threading.Thread(target=lambda: api_box.update(api_sweep(seed, thorough)))
+        api_thread.start()
     configs = CONFIGS_QUICK + (CONFIGS_EXTRA if thorough else [])
     configs = [c for c in configs if shutil.which(c["cxx"])]
     groups = int(os.environ.get("VERIF_C19_GROUPS", "16"))
@@ -658,9 +688,15 @@ def main(tier, seed, only=None):
     log("compiled in %.0fs; linking and running %d schedules ..." % (time.time() - t0, len(jobs)))
     results = pmap(lambda j: build_and_run(tc, programs[j[0]], j[1]), jobs)
     infra = [r["infra"] for r in results if r["infra"]]
+    if api_thread is not None:
+        api_thread.join()
+        if api_box.get("infra"):
+            infra.append(api_box["infra"])
     if infra:
         log("INFRASTRUCTURE: %d schedules could not be run; first: %s" % (len(infra), infra[0]))
         return 2
+    if api_box.get("stats"):
+        log("API sweep: %s" % json.dumps(api_box["stats"]))
     # ---- statistics
     failures = []
     observed = 0
@@ -689,6 +725,9 @@ def main(tier, seed, only=None):
         for f in r["failures"]:
             f["program"] = pi
             failures.append(f)
+    for f in api_box.get("failures", []):
+        f["program"] = None
+        failures.append(f)
     # ---- violations: group by class, minimise one representative per class, gate, report
     groups_ = {}
     for f in failures:
@@ -698,15 +737,38 @@ def main(tier, seed, only=None):
     known_lines = []
     reported = []
     for n, (vc, fs) in enumerate(sorted(groups_.items())):
-        fs.sort(key=lambda f: (len(programs[f["program"]]["tus"]), sum(len(t["items"]) for t in programs[f["program"]]["tus"])))
+        fs.sort(key=lambda f: (0, 0) if f["program"] is None else (len(programs[f["program"]]["tus"]), sum(len(t["items"]) for t in programs[f["program"]]["tus"])))
         f = fs[0]
         k = known_match(f)
         if k:
+            sd = f["schedule"]
             known_lines.append("KNOWN-FINDING: property=%s compiler=%s facility=%s class=%s (%d schedules; e.g. %s under %s order=%s)" % (
-                PROP, vc[0], vc[1], vc[2], len(fs), f.get("note", ""), cfg_name(f["schedule"]["cfg"]), f["schedule"]["order"]))
+                PROP, vc[0], vc[1], vc[2], len(fs), f.get("note", ""), sd["cfg"] if isinstance(sd["cfg"], str) else cfg_name(sd["cfg"]), sd.get("order", sd.get("link"))))
             continue
         nviol += 1
         log("violation class %s: %d failing (schedule, probe) pairs; minimising one ..." % (list(vc), len(fs)))
+        if f["program"] is None:
+            names_ = sorted({x["note"].split(" [")[0] for x in fs})
+            log("  public API calls whose result before main differs (%d): %s" % (len(names_), ", ".join(names_[:6])))
+            path = os.path.join(common.replay_dir(), "C19-%d-%d.json" % (seed, n))
+            ok_ = False
+            for only_ in ([f["note"].split(" [")[0]], None):
+                with open(path, "w", encoding="utf-8") as fh:
+                    json.dump({"property": PROP, "kind": "api-sweep", "seed": seed, "violation": {k: v for k, v in f.items() if k != "schedule"},
+                               "schedule": f["schedule"], "only": only_, "thorough": thorough, "repo": common.repo_state(),
+                               "how_to_replay": "./check C19 --replay <this file>  (rebuilds a harness holding the named public API call"
+                                                " -- or the whole op set when 'only' is null -- and evaluates it before and inside main)"}, fh, indent=1)
+                    fh.write("\n")
+                if gate(path):
+                    ok_ = True
+                    break
+            if not ok_:
+                log("INFRASTRUCTURE: API-sweep violation did not reproduce in two fresh-process replays: %s" % path)
+                return 2
+            log("  %s %s under %s link=%s" % (f["class"], f["note"], f["schedule"]["cfg"], f["schedule"]["link"]))
+            reported.append("VIOLATION property=%s replay=%s" % (PROP, path))
+            exit_code = 1
+            continue
         mp, ms, used = minimise(tc, programs[f["program"]], f)
         path = write_replay(seed, mp, ms, f, n)
         if not gate(path):
@@ -732,18 +794,20 @@ def main(tier, seed, only=None):
                               for (pi, s) in jobs if programs[pi] is sample_prog][:6]},
                {"probe_source_example": gen.render_item(programs[0]["tus"][0]["items"][0])}]
     cov = {
-        "evaluations": len(jobs),
-        "distinct_nontrivial": len(nontrivial),
+        "evaluations": len(jobs) + int(api_box.get("stats", {}).get("schedules", 0)),
+        "distinct_nontrivial": len(nontrivial) + int(api_box.get("stats", {}).get("schedules", 0)),
         "rule": "one evaluation = one simulated run = one program (generated TUs with pre-main probes) built by one compiler at one "
                 "flag set, packaged and linked in one order, executed once clean (reference, nothing before main) and once for real. "
                 "distinct = distinct (compiler, flags, packaging, ordered list of TU content hashes); non-trivial = the program "
-                "contains at least one table-dependent probe that was evaluated before main",
+                "contains at least one table-dependent probe that was evaluated before main. API-sweep schedules (the whole "
+                "extracted public API evaluated before main, per compiler and link order) count as one evaluation each",
         "samples": samples,
         "exhaustive": False,
         "simulated_runs": len(jobs), "runs_per_hour": round(len(jobs) / wall * 3600, 1),
         "simulated_time": "not applicable: the library has no clock seam; progress is counted in probes and schedules",
         "probe_evaluations_before_main": observed,
         "probes_dropped_uncompilable": len(dropped_probes),
+        "api_sweep": api_box.get("stats", {"enabled": False}),
         "observer": {"enabled": bool(obs_src), "tables_watched": len(obs_labels),
                      "distinct_table_initialisation_masks_seen_at_probe_time": len(masks_seen),
                      "distinct_(probe_kind,mask)_states": len(mask_states),
@@ -771,3 +835,147 @@ def main(tier, seed, only=None):
     log("C19 %s: schedules=%d distinct=%d probes-before-main=%d failures=%d classes=%d wall=%.0fs -> exit %d" % (
         tier, len(jobs), len(sched_keys), observed, len(failures), len(groups_), wall, exit_code))
     return exit_code
+
+
+# ------------------------------------------------------------------------------- API sweep
+# Every public API call the C20 harness knows (one op instance per public member / free function x numeric
+# type, extracted from the current headers) is executed once before main -- from ordinary and from inline
+# registrar objects defined after the library's includes -- and once inside main.  This extends C19 from the
+# facilities that rely on a table today to any facility that might tomorrow.
+def api_parse(rc, out, err):
+    res = {"rc": rc, "done": False, "recs": {}, "in_flight": None, "reached_main": False, "tail": ""}
+    for line in out.decode(errors="replace").splitlines():
+        if line.startswith("P "):
+            t = line.split(" ", 11)
+            if len(t) == 12:
+                res["recs"][int(t[1])] = {"form": t[2], "st": int(t[3]), "h": t[4], "len": t[5], "type": t[6], "mst": int(t[7]), "mh": t[8],
+                                          "mlen": t[9], "mtype": t[10], "name": t[11]}
+        elif line.startswith("DONE"):
+            res["done"] = True
+    open_ids, tail = [], []
+    for line in err.decode(errors="replace").splitlines():
+        if line.startswith("@B "):
+            open_ids.append(int(line[3:]))
+        elif line.startswith("@E "):
+            i = int(line[3:])
+            if i in open_ids:
+                open_ids.remove(i)
+        elif line.startswith("@M"):
+            res["reached_main"] = True
+        else:
+            tail.append(line)
+    res["in_flight"] = open_ids[-1] if open_ids else None
+    res["tail"] = "\n".join(tail[-5:])[:500]
+    return res
+
+
+def api_run(exe, skip="", salt=""):
+    env = dict(os.environ)
+    env["VERIF_SKIP"] = skip
+    env["VERIF_API_SALT"] = salt
+    env["LC_ALL"] = "C"
+    rc, out, err = run([exe], env=env, timeout=300)
+    return api_parse(rc, out, err)
+
+
+def api_check(exe, cfgname, linkname, salt):
+    """returns (failures, infra, observed)"""
+    from .c20 import family
+    ref = api_run(exe, "all", salt)
+    if not ref["done"]:
+        return [], "API sweep reference process did not finish (%s, %s): rc=%s %s" % (cfgname, linkname, ref["rc"], ref["tail"]), 0
+    failures, skip = [], []
+    res = None
+    for _ in range(60):
+        res = api_run(exe, ",".join(str(i) for i in skip), salt)
+        if res["done"]:
+            break
+        pid = res["in_flight"]
+        if pid is None or pid in skip or res["reached_main"]:
+            return failures, "API sweep process died with no op in flight (%s, %s): rc=%s %s" % (cfgname, linkname, res["rc"], res["tail"]), 0
+        name = ref["recs"].get(pid, {}).get("name", "?")
+        failures.append({"probe": pid, "class": "hang" if res["rc"] is None else "crash:%s" % sig(res["rc"]), "facility": "api:" + family(name).split("|")[0],
+                         "kind": "api", "form": ref["recs"].get(pid, {}).get("form"), "note": name, "compiler": "clang" if "clang" in cfgname else "gcc",
+                         "detail": res["tail"], "schedule": {"api": True, "cfg": cfgname, "link": linkname, "salt": salt}})
+        skip.append(pid)
+    observed = 0
+    for pid, p in sorted(res["recs"].items()):
+        if pid in skip or p["st"] == 2:
+            continue
+        observed += 1
+        r = ref["recs"].get(pid)
+        cls = None
+        if p["st"] == 1:
+            cls = "exception:%s" % p["type"]
+        elif p["mst"] != 0 or (p["h"], p["len"]) != (p["mh"], p["mlen"]):
+            cls = "mismatch"
+        elif r is not None and (r["mst"] != 0 or (r["mh"], r["mlen"]) != (p["h"], p["len"])):
+            cls = "mismatch-vs-clean-main"
+        if cls:
+            failures.append({"probe": pid, "class": cls, "facility": "api:" + family(p["name"]).split("|")[0], "kind": "api", "form": p["form"],
+                             "note": p["name"] + (" [from inline variable]" if p["form"] == "i" else ""), "compiler": "clang" if "clang" in cfgname else "gcc",
+                             "detail": "", "schedule": {"api": True, "cfg": cfgname, "link": linkname, "salt": salt}})
+    return failures, None, observed
+
+
+def api_sweep(seed, thorough, only=None, cfg_filter=None):
+    """builds the op harness without sanitizers per (compiler, opt), links it in several orders, runs it.
+    returns dict(failures, infra, stats)"""
+    from . import c20
+    from .c20_gen import HarnessGen
+    cfgs = [("g++", ["-O0"]), ("clang++", ["-O0"])] + ([("g++", ["-O2"]), ("clang++", ["-O2"])] if thorough else [])
+    cfgs = [c for c in cfgs if shutil.which(c[0]) and (cfg_filter is None or " ".join([c[0]] + c[1]) == cfg_filter)]
+    subset = None
+    if not thorough and only is None:
+        subset = c20.quick_subset(HarnessGen(Catalogue()).class_list(), seed)
+    root = common.scratch("c19api")
+    per = max(1, common.NCPU // max(1, len(cfgs))) if only is None else 1
+    hs = []
+    for cxx, opt in cfgs:
+        # clang rejects (GCC only warns about) double->float narrowing inside a few library constructors
+        flags = opt + (["-Wno-c++11-narrowing"] if "clang" in cxx else [])
+        hs.append(c20.Harness(os.path.join(root, (cxx + "".join(opt)).replace("+", "p")), flags, only=only, cxx=cxx, ntus=per,
+                              label="api", subset=subset, runtime="c19_api_rt.cpp", no_models=("clang" in cxx), inline_twins=True))
+    errs = pmap(lambda h: h.build(), hs, len(hs) or 1)
+    for e in errs:
+        if e:
+            return {"failures": [], "infra": "API sweep harness: " + e, "stats": {}}
+    failures, observed, runs = [], 0, 0
+    rng = Rng(common.run_seed(seed, 4242))
+    jobs = []
+    for h, (cxx, opt) in zip(hs, cfgs):
+        cfgname = " ".join([cxx] + opt)
+        orders = [("rt-last", h.op_objects + [h.rt_object]), ("rt-first", [h.rt_object] + h.op_objects),
+                  ("reversed", list(reversed(h.op_objects)) + [h.rt_object])]
+        if thorough:
+            for k in range(3):
+                sh = rng.shuffle(h.op_objects + [h.rt_object])
+                orders.append(("shuffle-%d" % k, sh))
+        for lname, objs in orders:
+            jobs.append((h, cfgname, lname, objs))
+
+    def one(j):
+        h, cfgname, lname, objs = j
+        exe = os.path.join(h.work, "api_" + lname)
+        rc, out, err = run([h.cxx] + h.flags + ["-o", exe] + objs, timeout=1800)
+        if rc != 0:
+            return [], "API sweep link failed: " + err.decode(errors="replace")[-2000:], 0
+        out_f, out_obs = [], 0
+        for k in range(nsalts):
+            f_, infra_, obs_ = api_check(exe, cfgname, lname, "%d.%d" % (seed, k))
+            if infra_:
+                return out_f, infra_, out_obs
+            out_f += f_
+            out_obs += obs_
+        return out_f, None, out_obs
+    nsalts = int(os.environ.get("VERIF_C19_API_SEEDS", "24" if thorough else "6"))
+    for f, infra, obs in pmap(one, jobs):
+        if infra:
+            return {"failures": failures, "infra": infra, "stats": {}}
+        failures += f
+        observed += obs
+        runs += nsalts
+    return {"failures": failures, "infra": None,
+            "stats": {"op_instances": {(" ".join([c[0]] + c[1])): len(h.ops) for h, c in zip(hs, cfgs)}, "schedules": runs,
+                      "op_evaluations_before_main": observed, "build_seconds": {(" ".join([c[0]] + c[1])): round(h.build_s) for h, c in zip(hs, cfgs)},
+                      "ops_dropped_uncompilable": sum(len(h.dropped) for h in hs)}}
